@@ -46,7 +46,7 @@ Definition gen_unknown_data (ver : N) : Gen aset :=
 
 Definition gen_pipe_msg (ver dom : N) (c : ctx) : Gen (amsg * ctx) :=
   gdo mc <- gen_msg ver dom c;
-  gdo k <- grand 6;
+  gdo k <- grand 7;
   let '(m, c1) := mc in
   match k with
   | 0 => gdo sc <- gen_sampling ver c1;
@@ -57,6 +57,16 @@ Definition gen_pipe_msg (ver dom : N) (c : ctx) : Gen (amsg * ctx) :=
          gdo front <- gbool;
          gret ({| aVer := aVer m; aHdr := aHdr m;
                   aSets := if front then u :: aSets m else aSets m ++ [u] |}, c1)
+  | 3 =>
+      (* a template set that STARTS with a record of zero fields (what RFC 7011 calls a withdrawal) for an id the
+         exporter uses or one nobody announced, followed IN THE SAME SET by an announcement, then data for it *)
+      gdo wid <- gpick 256 [256; 257; 258; 259; 260; 261; 270; 271];
+      gdo id <- gen_tid; gdo fs <- fresh_fields ver;
+      gdo recs <- glist 2 (gen_values fs);
+      gdo front <- gbool;
+      let ws := [ATmpl [(wid, []); (id, fs)]; AData id fs recs 0] in
+      gret ({| aVer := aVer m; aHdr := aHdr m; aSets := if front then ws ++ aSets m else aSets m ++ ws |},
+            CData id fs :: c1)
   | _ => gret (m, c1)
   end.
 
